@@ -857,6 +857,15 @@ class Interp:
         return Opaque(f'call:{fname}')
       except (ValueError, IndexError, TypeError) as e:
         raise _Raise(type(e).__name__, str(e), node)
+    if fname in ('np.mean', 'numpy.mean', 'np.average', 'np.sum', 'numpy.sum', 'np.min', 'np.max', 'numpy.min', 'numpy.max') and len(args) == 1 and not kwargs \
+        and isinstance(args[0], (list, tuple)) and args[0] and all(_is_num(x) for x in args[0]):
+      import fractions as _fr  # pylint: disable=g-import-not-at-top
+      xs = list(args[0])
+      what = fname.split('.')[1]
+      if what in ('mean', 'average'):
+        tot = sum(xs)
+        return _fr.Fraction(tot) / len(xs) if not isinstance(tot, float) else tot / len(xs)
+      return {'sum': sum, 'min': min, 'max': max}[what](xs)
     if fname.split('.')[0] in ('np', 'numpy') and args and all(_is_num(a) for a in args):
       r = _np_scalar(fname.split('.', 1)[1], args)
       if r is not _NO:
